@@ -21,6 +21,24 @@ fn main() {
             let rep = rv::replay::Replayer::run_stdin_parallel(&prop, dir, log.as_deref(), threads);
             rep.finish();
         }
+        "record" => {
+            let driver = arg(&args, "--driver").unwrap_or_default();
+            let out = arg(&args, "--out").unwrap();
+            let rounds: usize = arg(&args, "--rounds").and_then(|s| s.parse().ok()).unwrap_or(10);
+            let seed: u64 = arg(&args, "--seed").and_then(|s| s.parse().ok()).unwrap_or(1);
+            let mut r = rv::record::Recorder::new(&out, seed);
+            match driver.as_str() {
+                "store" => r.driver_store(rounds),
+                d => {
+                    eprintln!("rv: unknown driver {}", d);
+                    std::process::exit(2);
+                }
+            }
+            use std::io::Write;
+            r.out.flush().unwrap();
+            let _ = std::fs::remove_dir_all(&r.home);
+            println!("RV-RECORDED {}", r.n);
+        }
         other => {
             eprintln!("rv: unknown subcommand {}", other);
             std::process::exit(2);
